@@ -179,7 +179,7 @@ def sizes_for(tier, measure):
         if measure == 'COSINE':
             return list(range(1, 17)) + [25]
         return list(range(1, 26))
-    return list(range(1, 9)) + [9, 12, 25]
+    return [1, 2, 3, 4, 5, 7, 9, 25]
 
 
 def contract_obligations(measure, S, kinds=('lb', 'ub', 'alpha', 'pl', 'range', 'mono')):
